@@ -102,13 +102,18 @@ package mcp
 
 // The gate of the receive path. 'dispatched' is the call of handleReceive. vm is the validated per-request
 // metadata, init the lifecycle bit read at the top.
-//@ func (*ServerSession).handle [C06, C03, C10]
+//@ func (*ServerSession).handle [C06, C03, C10, C05]
 //@   track context.WithValue as withValue
 //@   track jsonrpc2.Async as async
 //@   track validateRequestMeta as vrm
 //@   track handleReceive as dispatch
 //@   track updateState as upd inline
 //@   snapshot afterMeta after call validateRequestMeta
+// (C05, defect F23) a subscriptions/listen that reaches its handler after Close began is refused, never parked: Close
+// has already cancelled the listens it knew about and nothing would cancel this one; a listen that is dispatched is
+// recorded for Close to cancel.
+//@   ensures @a-listen-arriving-after-close-began-is-not-dispatched old(ss.closing) && old(req.Method) == methodSubscriptionsListen ==> calls(dispatch) == 0 && result.1 != nil
+//@   assert at call handleReceive: @a-dispatched-listen-is-recorded-for-close req.Method == methodSubscriptionsListen ==> !ss.closing && len(ss.listenIDs) > 0 && ss.listenIDs[len(ss.listenIDs) - 1] == req.ID
 //@   ghost vm := callResult(vrm, 1, 0)
 //@   ghost metaErr := callResult(vrm, 1, 1)
 //@   ghost isNew := at(afterMeta, vm.usesNewProtocol)
@@ -138,7 +143,9 @@ package mcp
 // A request that is turned away at the gate leaves the session as it was: only a request that goes on to its handler
 // may record the per-request client description (a rejected request that marked the session initialized would open
 // the gate for everything after it).
-//@   ensures @a-rejected-request-leaves-the-session-state-alone calls(dispatch) == 0 ==> calls(upd) == 0
+// (the one exception, since the F23 fix: a subscriptions/listen refused because the session is closing may already
+// have recorded the per-request metadata it carried - the session is going away, C06 asks nothing of that case)
+//@   ensures @a-rejected-request-leaves-the-session-state-alone calls(dispatch) == 0 && !(old(ss.closing) && method == methodSubscriptionsListen) ==> calls(upd) == 0
 //@   ensures @only-an-uninitialized-new-protocol-request-records-its-metadata calls(upd) <= 1 && (calls(upd) == 1 ==> !init && isNew && !removedIn2026(method) && method != methodDiscover)
 
 // A server connection is told about session-state changes; the only implementation records the protocol version.
@@ -1621,6 +1628,11 @@ package mcp
 //@   assume ss != nil && ss.conn != nil   // a session is created around its connection (Server.Connect)
 //@   modifies *
 //@   ensures @connection-closed-once-per-call calls(closeConn) == 1
+// (defect F23) the session is marked closing, and the recorded listens are taken, before Close waits for the
+// connection to drain: a listen that starts later sees the mark (ServerSession.handle) and is refused.
+//@   assert at call (*Connection).Close: @marked-closing-before-waiting-for-the-drain ss.closing && len(ss.listenIDs) == 0
+//@   ensures @one-cancel-per-recorded-listen calls(cancelListen) == old(len(ss.listenIDs))
+//@   loop 1: invariant @one-cancel-per-listen-so-far calls(cancelListen) == $idx && ss.closing && len(ss.listenIDs) == 0 && len(local(ids)) == old(len(ss.listenIDs)) && calls(closeConn) == 0
 //@   ensures @hook-at-most-once-per-call calls(hook) <= 1 && (calls(hook) == 1 ==> calls(claim) == 1 && callResult(claim, 1, 0))
 //@   snapshot connClosed after call (*Connection).Close
 //@   ensures @the-winning-close-always-runs-the-hook at(connClosed, ss.onClose != nil) ==> calls(claim) == 1 && (callResult(claim, 1, 0) ==> calls(hook) == 1)
